@@ -244,7 +244,9 @@ class Check:
             if e.get('status') != 'known' or e.get('obligation') != name:
                 continue
             try:
-                reg = eval(e['region'], {'z3': z3, 'ULT': z3.ULT, 'ULE': z3.ULE, 'UGT': z3.UGT, 'UGE': z3.UGE, 'And': z3.And, 'Or': z3.Or, 'Not': z3.Not}, dict(vars))
+                loc = dict(vars)
+                loc['v'] = lambda n_, _vars=vars: _vars[n_]
+                reg = eval(e['region'], {'z3': z3, 'ULT': z3.ULT, 'ULE': z3.ULE, 'UGT': z3.UGT, 'UGE': z3.UGE, 'And': z3.And, 'Or': z3.Or, 'Not': z3.Not}, loc)
             except Exception as x:
                 s.engine_errors.append('known-finding region of %s does not evaluate: %r' % (e.get('id'), x))
                 continue
